@@ -35,13 +35,13 @@ const cliDeadline = 20 * time.Second // hangs are declared after this long only 
 // ---------- parent side ----------
 
 type cliDeath struct {
-	Idx       int    `json:"idx"`
-	Why       string `json:"why"`    // "panic", "oom", "fatal", "timeout", "exit"
-	Site      string `json:"site"`   // function of pkg/sftp in which the panic was raised
-	Head      string `json:"head"`   // first line of the panic / fatal error
-	Stack     string `json:"stack"`  // the panicking goroutine's stack (trimmed)
-	Confirmed bool   `json:"alone"`  // died again when re-run alone in a fresh process
-	Background bool  `json:"background_goroutine"`
+	Idx        int    `json:"idx"`
+	Why        string `json:"why"`   // "panic", "oom", "fatal", "timeout", "exit"
+	Site       string `json:"site"`  // function of pkg/sftp in which the panic was raised
+	Head       string `json:"head"`  // first line of the panic / fatal error
+	Stack      string `json:"stack"` // the panicking goroutine's stack (trimmed)
+	Confirmed  bool   `json:"alone"` // died again when re-run alone in a fresh process
+	Background bool   `json:"background_goroutine"`
 }
 
 type cliChildProc struct {
@@ -584,6 +584,10 @@ func cliDescribe(gs []cliGoroutine) []string {
 	var out []string
 	for _, g := range gs {
 		top := ""
+		// the machinery of a blocked lock / channel operation says nothing: start at the operation itself
+		for len(g.Funcs) > 1 && (strings.HasPrefix(g.Funcs[0], "runtime.") || strings.HasPrefix(g.Funcs[0], "internal/sync.") || strings.HasPrefix(g.Funcs[0], "sync.runtime_")) {
+			g.Funcs = g.Funcs[1:]
+		}
 		if len(g.Funcs) > 0 {
 			n := len(g.Funcs)
 			if n > 4 {
